@@ -41,6 +41,11 @@ CHECKS = {
          "Every ordered list without repeats of length <= 2 (quick) / <= 3 (thorough) over the 25-transaction menu is mined on the prefix state; on every block: sum of all balance changes == -(burns); the income address receives exactly what the gas payers are charged; per-tx gasUsed <= gasLimit and header.GasUsed is the sum; no negative balance; for single-transaction blocks a failed tx moves nothing but its fee and the payer pays exactly gasUsed x gasPrice (+ at most the amount).",
          "Ordinary heights only: term rewards, deposit refunds at term boundaries and reward settings are not enumerated yet; the only burner in the menu is the contract that self-destructs to itself.",
          "DESIGN.md section 4 C05"),
+ "C18": ("model_checking",
+         "explicit-state BFS of operation sequences against a set model (part A) and preemption-bounded exhaustive interleaving exploration under a controlled scheduler with co-enabledness race check and brute-force linearizability (part B), both on the real TxPool",
+         "Part A: every sequence up to depth 4 (quick) / 5 (thorough) of AddTx/AddTxs/GetTxs/DelTxs over 5 plain transactions and 2 overlapping boxes with pool capacity 2 (growth and gc reached), expirations and monotone selection times, on the real pool next to a reference model that is agnostic only where the statement is open (box deletion vs. sub-transactions pooled on their own). Part B: 8 scenarios of 2-3 threads x 1-2 operations on overlapping transactions, every interleaving with <= 2 (thorough 3) preemptions; scheduling points at the pool mutex and at every read/write of txs, hashIndexMap and cap (generated source overlay); each complete schedule: call/return history linearizable w.r.t. the model, no two threads co-enabled on conflicting accesses, no deadlock, no panic.",
+         "Order of GetTxs results not asserted; AddTx refusing is never a violation; the engine-level fork-switch clause (pool vs. old/new fork transactions) is exercised in C04's miner scenario only.",
+         "DESIGN.md section 4 C18"),
 }
 
 NOT_YET = "check not built yet in this round (design in DESIGN.md section 4); no technique switch intended"
@@ -57,6 +62,8 @@ m = {
   "add_only": True,
  },
  "engines": [
+  {"name": "E1 controlled scheduler", "path": "mc/sched/sched.go", "serves_properties": ["C18"], "kind_free_text": "cooperative scheduler over real goroutines (sync/atomic call sites rewritten by mc/instr into mc/vsync, mc/vatomic), preemption-bounded DFS, lock ownership modelled by address, deadlock detection, data-race check by co-enabled conflicting announced accesses"},
+  {"name": "E4 bounded exhaustive enumeration", "path": "mc/props/*/main.go + mc/core/core.go (RunShards)", "serves_properties": sorted(k for k, v in CHECKS.items() if v[0] == "exploration"), "kind_free_text": "exhaustive generators over stated finite domains (grids, operator tables, ordered lists), sharded over worker processes"},
   {"name": "E2 explicit-state BFS", "path": "mc/core/bfs.go", "serves_properties": sorted(k for k, v in CHECKS.items() if v[0] == "model_checking"), "kind_free_text": "breadth-first search over event histories executed on the real objects; state = history, successor = fresh instance + replay + one event; canonical-key de-duplication; subprocess workers"},
  ],
  "checks": [],
